@@ -128,3 +128,15 @@ func (module *InMemoryStorage) VerifStop() error { return module.Stop() }
 func (module *InMemoryStorage) VerifChannel() chan *protocol.StorageRequest {
 	return module.requestChannel
 }
+
+// VerifConfigureInMemory runs the real Configure of a fresh in-memory storage module on the given configuration root.
+func VerifConfigureInMemory(app *protocol.ApplicationContext, name, configRoot string) *InMemoryStorage {
+	module := &InMemoryStorage{App: app, Log: zap.NewNop()}
+	module.Configure(name, configRoot)
+	return module
+}
+
+// VerifSettings reports what Configure left in the module: intervals, expire-group, min-distance, workers, queue-depth.
+func (module *InMemoryStorage) VerifSettings() (intervals int, expireGroup, minDistance int64, workers, queueDepth int) {
+	return module.intervals, module.expireGroup, module.minDistance, module.numWorkers, module.queueDepth
+}
